@@ -473,8 +473,50 @@ func sliceBoundsRule(c *Ctx, r *R) {
 	r.check(n >= 1 && direct, "SLICE end", c.Pos(sc.Clause), "the end operand is passed to Slice unchanged", "no path of the SLICE handler slices up to the end operand itself")
 }
 
+// sliceConvRule (part of REP-SLICE): a conversion []T(x) is to a slice *of T*: the CONVERT
+// instruction carries the full slice type (element type included), not the bare slice tag —
+// otherwise []int(nil) is a nil []byte (append(s, 300) stores 44) and a defined slice type
+// converts to nil.
+func sliceConvRule(c *Ctx, r *R) {
+	cs, err := c.compileSwitch()
+	if err != nil {
+		r.undecided("slice conversion", "-", err.Error())
+		return
+	}
+	sc := cs.ByLabel["call"]
+	if sc == nil {
+		r.undecided("slice conversion", "-", "no compile-case for call")
+		return
+	}
+	m := newLayMachine(c)
+	cl, err := m.runCase(cs, "call")
+	if err != nil {
+		r.undecided("slice conversion", c.Pos(sc.Clause), err.Error())
+		return
+	}
+	full, n := false, 0
+	for _, p := range cl.Paths {
+		for _, a := range p.Atoms {
+			if a.Ins == nil || opName(a.Ins) != "Convert" {
+				continue
+			}
+			n++
+			av := litField(a.Ins, "A")
+			if av != nil && strings.Contains(av.String(), "typeFromToken(") && strings.Contains(condStrings(p.St), "TypeSlice") {
+				full = true
+			}
+		}
+	}
+	if n == 0 {
+		r.undecided("slice conversion", c.Pos(sc.Clause), "no CONVERT emitted by compile(\"call\")")
+		return
+	}
+	r.check(full, "slice conversion", c.Pos(sc.Clause), "[]T(x) converts to the full slice type", "compile(\"call\") emits CONVERT with the bare slice tag for []T(x): the element type is lost — `c := append([]int(nil), src...); c = append(c, 1000)` stores 232 (a byte), `type Vec []float64; Vec(s)` is nil")
+}
+
 func ruleRepSlice(c *Ctx, r *R) {
 	sliceBoundsRule(c, r)
+	sliceConvRule(c, r)
 	one := func(name string) *State {
 		ps := c.pathsOf(name)
 		if len(ps) == 1 {
